@@ -231,10 +231,10 @@ PROPS = {
         'technique': 'reference-model monitor: generated statement trees are interpreted by a model written from the documentation and the engine output must match exactly; scope visibility also observed through the engine\'s own `__tera_context` dump; map loops checked as multisets of iteration records',
         'claim': 'Template sets of 1-5 templates, trees of depth 2-5 mixing if/elif/else (with negation), for over arrays (also filtered through reverse), strings incl. multi-byte, empty targets with else bodies, break/continue under ifs, set/set_global/set from another name in and out of loops, '
                  'set-blocks with filter chains, filter sections, includes inside loops/captures/branches and included templates that assign; five names are deliberately shadowed across loop variables, assignments, includer scopes, the render context and the global context. '
-                 'Every tenth case iterates random maps of 0-8 entries and checks each entry exactly once with loop.index/index0/first/last/length per record.',
+                 'One case in 64 takes a general generated program (components, filters, captures and loops around the include sites), cuts every included template between two top-level statements, moves the tail into an include of its own and requires every entry to render the same. Every tenth case iterates random maps of 0-8 entries and checks each entry exactly once with loop.index/index0/first/last/length per record.',
         'note': 'values are integers and strings; autoescape is off here (C01 owns escaping); `__tera_context` is only placed outside loops and includes because the dump deliberately omits loop variables and includer scopes (undocumented); break/continue are not generated inside captures',
         'rule': "one evaluation = one program rendered or one map loop; a cell = path of construct kinds from the template root to each print/set/break/continue/include site (first 12 per program) and the map size for map loops",
-        'must_observe': ['programs_compared', 'scope_dump_comparisons', 'map_loops_checked'],
+        'must_observe': ['programs_compared', 'scope_dump_comparisons', 'map_loops_checked', 'include_splits_compared'],
     },
     'C04': {
         'scale': {'quick': 2, 'thorough': 15},
